@@ -84,7 +84,7 @@ def register(reg):
 
     reg.add_fn(FnContract(
         key="hippolyzer.lib.proxy.socks_proxy:UDPProxyProtocol._parse_socks_datagram", relpath=SREL,
-        qualname="UDPProxyProtocol._parse_socks_datagram", cls="UDPProxyProtocol", prop=PID, spec_modules=["inet"],
+        qualname="UDPProxyProtocol._parse_socks_datagram", cls="UDPProxyProtocol", prop=PID,
         params={"data": "Bytes"}, param_names=["data"], returns="Opt[Tuple[Tuple[Str,Int],Bytes]]",
         externals={"socket.inet_ntoa": {"returns": "Str", "post": "result == ntoa(arg0)", "doc": "4 bytes -> dotted quad"}},
         may_raise={"struct.error": "len(data) < 10 or (data[3] == 3 and len(data) < 7 + data[4])", "IndexError": "len(data) < 5"},
@@ -98,7 +98,7 @@ def register(reg):
                 "result.direction == kw_direction"]
     reg.add_fn(FnContract(
         key="hippolyzer.lib.proxy.socks_proxy:UDPProxyProtocol.datagram_received", relpath=SREL,
-        qualname="UDPProxyProtocol.datagram_received", cls="UDPProxyProtocol", prop=PID, spec_modules=["inet"],
+        qualname="UDPProxyProtocol.datagram_received", cls="UDPProxyProtocol", prop=PID,     # ntoa is used uninterpreted here: no quantified axiom in these VCs, so a violated obligation gets a model
         params={"data": "Bytes", "source_addr": "Tuple[Str,Int]"}, param_names=["data", "source_addr"],
         externals={
             "self.far_to_near_map.get": {"returns": "Opt[Tuple[Str,Int]]", "record_as": "lookup", "record_result": True, "doc": "route lookup"},
